@@ -120,19 +120,19 @@ def combo_rows(lin, circ, cols, a):
     for r in range(lin):
         terms = [c[r] * x for c, x in zip(cols, a)]
         scale = ksum(abs(x) for x in terms)
-        out.append((ksum(terms), 64 * EPS * scale * max(1, len(a)) ** 0.5 + 1e-300))
+        out.append((ksum(terms), 64 * EPS * scale * max(1, len(a)) ** 0.5 + 1e-300, 1.0))
     for r in range(lin, lin + circ):
         s = ksum(fsin(c[r]) * x for c, x in zip(cols, a))
         co = ksum(fcos(c[r]) * x for c, x in zip(cols, a))
         R = math.hypot(s, co)
         big = max([abs(c[r]) for c in cols] + [1.0])
         if not math.isfinite(R) or not math.isfinite(sa):
-            out.append((math.nan, 0.0))      # a non-finite stored estimate: nothing can match
+            out.append((math.nan, 0.0, 1.0))      # a non-finite stored estimate: nothing can match
         elif R <= 1e-6 * sa or sa == 0.0:
             out.append(None)
         else:
             # error of the resultant: rounding of sin/cos arguments grows with |angle|
-            out.append((math.atan2(s, co), 64 * EPS * sa * big / R + 16 * EPS * PI))
+            out.append((math.atan2(s, co), 64 * EPS * sa * big / R + 16 * EPS * PI, sa / R))
     return out
 
 
@@ -163,7 +163,7 @@ def check_base(stat, lin, circ, c, v):
         for r, ev in enumerate(rows):
             if ev is None:
                 continue
-            exp_, tol = ev
+            exp_, tol, _ = ev
             if r < lin:
                 if not abs(v[r] - exp_) <= tol:
                     probs.append(("mean-linear-wrong", "mean: linear row %d is %r, weighted arithmetic mean is %r (tol %.2g)" % (r, v[r], exp_, tol)))
@@ -225,6 +225,7 @@ def eval_ee(line, hout, dout, wtab, stats, notes):
         return [("corr", "output-shape", "outputs do not have one entry per call")]
     probs = []
     window, method, H = 5, 7, []        # the check's own record: window, method, base estimates newest first
+    Htol = []                            # per stored base estimate: per-row tolerance of that estimate (None: unknown)
     tie = True                           # model still comparable on this sequence
     for idx, c in enumerate(calls):
         ht, dt = hc[idx], dc[idx]
@@ -240,6 +241,8 @@ def eval_ee(line, hout, dout, wtab, stats, notes):
         where = "call %d (%s)" % (idx, op)
         explained = None                 # reason why a model deviation here is not an alarm
         rows = None
+        base_tol = None
+        tie_factor = 1.0
         # ---- window clauses
         if not 2 <= win <= 30:
             probs.append(("prop", "window-out-of-range", "%s: window is %d, outside [2, 30]" % (where, win)))
@@ -254,6 +257,7 @@ def eval_ee(line, hout, dout, wtab, stats, notes):
                 explained = "nonpositive-window-request"
             if win < len(H):
                 H = H[:win]
+                Htol = Htol[:win]
         elif win != window:
             probs.append(("prop", "window-changed", "%s: window changed from %d to %d without a window request" % (where, window, win)))
         window = win
@@ -261,7 +265,7 @@ def eval_ee(line, hout, dout, wtab, stats, notes):
             method = c["m"]
             explained = "return-flag"
         elif op == "C":
-            H = []
+            H, Htol = [], []
             explained = "return-flag"
         elif op == "V":
             explained = "return-flag"
@@ -277,6 +281,7 @@ def eval_ee(line, hout, dout, wtab, stats, notes):
                 if fam != 0 and len(base) != d:
                     probs.append(("corr", "harness-base", "%s: base estimate missing" % where))
                     bvec = None
+                brows = None
                 if bvec is not None and (stat != 2 or op == "Y"):
                     bp, brows, picked = check_base(stat, lin, circ, c, bvec)
                     probs += [("prop", k, "%s, method %s: %s" % (where, mname, w)) for k, w in bp]
@@ -286,17 +291,21 @@ def eval_ee(line, hout, dout, wtab, stats, notes):
                             explained = "tie-break-among-equal-maxima"
                 if fam != 0 and bvec is not None:
                     H = ([list(bvec)] + H)[:window]
+                    btol = [0.0] * d if stat != 0 else ([(ev[1] if ev is not None else None) for ev in brows] if brows is not None else [None] * d)
+                    Htol = ([btol] + Htol)[:window]
                     k = len(H)
                     a = wtab.get((fam, window, k)) or advertised_weights(fam, k)
                     if len(est) != d:
                         probs.append(("prop", "estimate-size", "%s: estimate has %d rows" % (where, len(est))))
                     else:
                         rows = combo_rows(lin, circ, H, a)
+                        # the model pushes its own base estimates: their tolerance enters the comparison with the model
+                        base_tol = [None if any(t[r] is None for t in Htol) else ksum(x * t[r] for x, t in zip(a, Htol)) for r in range(d)]
                         for r, ev in enumerate(rows):
                             if ev is None:
                                 stats["ill_conditioned_rows_skipped"] += 1
                                 continue
-                            exp_, tol = ev
+                            exp_, tol, _ = ev
                             if r < lin:
                                 if not abs(est[r] - exp_) <= tol:
                                     probs.append(("prop", "windowed-not-combination", "%s, method %s, window %d, %d stored: linear row %d is %r; the %s combination of the %d most recent base estimates is %r (tol %.2g)" % (where, mname, window, k, r, est[r], FAMS[fam], k, exp_, tol)))
@@ -307,6 +316,9 @@ def eval_ee(line, hout, dout, wtab, stats, notes):
                                     else:
                                         probs.append(("prop", "windowed-circular-wrong", "%s, method %s, window %d, %d stored: circular row %d is %r; averaged on the circle with the %s weights it is %r (tol %.2g)" % (where, mname, window, k, r, est[r], FAMS[fam], exp_, tol)))
                         if fam in (2, 3):
+                            # model and implementation normalise their log-weights independently: a rounding
+                            # error eps*|lw| of a log-weight is a relative error of the weight itself
+                            tie_factor = 4.0 * (1.0 + max(abs(math.log(x)) for x in a if x > 0.0)) if any(x > 0.0 for x in a) else 4.0
                             explained = "weights-of-weighted-or-exponential-variant"
                         elif stat != 0:
                             explained = "tie-break-among-equal-maxima"
@@ -328,10 +340,16 @@ def eval_ee(line, hout, dout, wtab, stats, notes):
                     ev = rows[r] if rows is not None and r < len(rows) else None
                     if rows is not None and ev is None:
                         continue            # ill-conditioned circular row
-                    tol = ev[1] if ev is not None else 0.0
+                    tol = (ev[1] if ev is not None else 0.0) * tie_factor
+                    if base_tol is not None and ev is not None:
+                        if base_tol[r] is None:
+                            continue        # a stored base estimate was ill-conditioned
+                        tol += base_tol[r] * ev[2]
                     dd = abs(x - y) if r < lin else angdiff(x, y)
                     if ev is not None:
-                        stats["max_model_err_over_tol"] = max(stats["max_model_err_over_tol"], dd / tol)
+                        if dd / tol > stats["max_model_err_over_tol"]:
+                            stats["max_model_err_over_tol"] = dd / tol
+                            stats["max_model_err_at"] = "%s row %d (lin %d circ %d) impl %r model %r oracle %r tol %.3g: %s" % (where, r, lin, circ, x, y, ev[0], tol, line[:60])
                     if not dd <= tol:
                         bad = "estimate row %d: implementation %r, model %r" % (r, x, y)
                         if r >= lin and ev is not None and "one-column-shortcut" in " ".join(dt) and angdiff(x, ev[0]) <= tol:
@@ -705,7 +723,8 @@ def run(ctx):
             continue
         seen.add(key)
         ctx.violation(key, "C17: " + what, {"harness": "h_extract", "input_line": line[:20000], "observed": h[:4000]})
-    if corr_bad and not prop_bad:
+    known_keys = set(k["key"] for k in ctx.known if k["property"] == ctx.prop)
+    if corr_bad and not [p for p in prop_bad if p[0] not in known_keys]:
         key, what, line, h = corr_bad[0]
         ctx.violation("correspondence:" + key, "model and implementation disagree (%d cases) though no property predicate failed: %s" % (len(corr_bad), what),
                       {"harness": "h_extract", "correspondence": "BFL.Extract / BFL.HistBuf vs EstimatesExtraction / HistoryBuffer", "input_line": line[:20000], "observed": h[:4000]}, no_input=True)
@@ -733,7 +752,7 @@ def run(ctx):
         "calls_compared_with_model": stats["calls_compared_with_model"],
         "model_vs_impl_disagreements": len(corr_bad), "property_failures_on_impl": len(prop_bad),
         "model_deviation_notes": notes,
-        "numeric": {k: stats[k] for k in ("max_model_err_over_tol", "probe_weights_vs_model_max_rel", "ill_conditioned_rows_skipped", "weight_vectors_probed", "hb_full_reads")},
+        "numeric": {k: stats.get(k) for k in ("max_model_err_over_tol", "max_model_err_at", "probe_weights_vs_model_max_rel", "ill_conditioned_rows_skipped", "weight_vectors_probed", "hb_full_reads")},
         "sanitizer_crashes": len(logs),
     })
     ctx.assumptions += [
